@@ -274,7 +274,7 @@ def mon_pubsub(session, ev, name, before, out_i, crash_i):
     closed = session.impl.closed
     for tbl in (ref['ch'], ref['pat']):
         for k in tbl:
-            tbl[k] = [x for x in tbl[k] if x not in closed]
+            tbl[k] = [x for x in tbl[k] if x not in closed and x in session.impl.socks]
     if before is None or before['conns'][c]['tx'] != '-' and name not in ('exec',):
         return
     if len(mine) == 1 and isinstance(mine[0], RawError):
